@@ -8,9 +8,9 @@ REG.contract('os.path.basename', params={'p': 'opaque'}, returns='opaque', pure=
 # Assumed raises-sets of the loaders on syntactically invalid input (from the libraries' documentation; the bounded
 # fault enumeration checks them): the loader contracts are ASSUMED, the handlers are verified against them.
 RAISES = {
-    'JSON': ['JSONDecodeError'],
+    'JSON': ['JSONDecodeError', 'UnicodeDecodeError'],   # text-mode open(): undecodable bytes raise before json.load parses
     'JSON5': ['ValueError'],
-    'YAML': ['YAMLError', 'ScannerError', 'ParserError'],
+    'YAML': ['YAMLError', 'ReaderError', 'ScannerError', 'ParserError'],
     'XML': ['ParseError'],
     'HTML': ['ParseError'],
     'PLIST': ['ExpatError', 'InvalidFileException', 'ValueError', 'IndexError', 'KeyError'],
